@@ -17,6 +17,10 @@ pub open spec fn files_same_outside(a: Fs, b: Fs, d: PathV) -> bool {
     &&& forall|p: PathV| #![trigger a.links.contains_key(p)] #![trigger b.links.contains_key(p)] !under(p, d) ==> (a.links.contains_key(p) <==> b.links.contains_key(p))
     &&& forall|p: PathV| !under(p, d) && #[trigger] a.links.contains_key(p) ==> a.links[p] == b.links[p]
 }
+/// no content file of the cache disappears between the two states
+pub open spec fn content_kept(a: Fs, b: Fs, cache: PathV) -> bool {
+    forall|p: PathV| #![trigger a.files.contains_key(p)] #![trigger b.files.contains_key(p)] under(p, content_dir(cache)) && a.files.contains_key(p) ==> b.files.contains_key(p)
+}
 /// `post` was reached from `pre` through states that differ from `pre.fs` only inside `d`
 /// (files/links) and by added directories
 pub open spec fn only_under(pre: World, post: World, d: PathV) -> bool {
